@@ -524,6 +524,44 @@ func Decode(enc []byte, meta map[string]bool) *World {
 	return w
 }
 
+// GhostFlag reports a history flag kept next to the role records: kind "frozen" (who = account
+// address) or "paused" (who = shard id as one byte), as the system contract's accepted controls
+// left it.
+func (w *World) GhostFlag(kind string, who []byte, tok string) bool {
+	return w.Ghost.Roles["\x00"+kind+"|"+string(who)+"|"+tok] != ""
+}
+
+// GhostFlags lists the set flags of a kind as (who, token) pairs.
+func (w *World) GhostFlags(kind string) [][2]string {
+	var out [][2]string
+	pre := "\x00" + kind + "|"
+	for k := range w.Ghost.Roles {
+		if strings.HasPrefix(k, pre) {
+			rest := k[len(pre):]
+			if i := strings.Index(rest, "|"); i >= 0 {
+				// who may itself contain '|' only for addresses; addresses are 32 bytes, shards 1 byte
+				n := 32
+				if kind == "paused" {
+					n = 1
+				}
+				if len(rest) > n && rest[n] == '|' {
+					out = append(out, [2]string{rest[:n], rest[n+1:]})
+				}
+			}
+		}
+	}
+	return out
+}
+
+func (w *World) ghostSetFlag(kind string, who []byte, tok string, on bool) {
+	k := "\x00" + kind + "|" + string(who) + "|" + tok
+	if on {
+		w.Ghost.Roles[k] = "1"
+	} else {
+		delete(w.Ghost.Roles, k)
+	}
+}
+
 // GhostHasRole reports whether the system contract's record says acct holds role for tok.
 func (w *World) GhostHasRole(acct []byte, tok, role string) bool {
 	for _, r := range strings.Split(w.Ghost.Roles[string(acct)+"|"+tok], ",") {
